@@ -162,9 +162,10 @@ def runZ (cfgBase : Cfg) (i : Nat) (p : List String) (out : String) : String × 
     | some ma, some qd, some opcode, some qr =>
       let cfg : Cfg := { cfgBase with maxAns := ma }
       let h : Hdr := { id := 2000 + i, qr := qr = 1, opcode := opcode, rd := true, qdcount := qd }
-      -- a header-only packet: if it were accepted the body would not unpack (QDCOUNT ≥ 1 without a
-      -- question), or be a message without question (QDCOUNT = 0 is never accepted)
-      let o := listener cfg (fun _ => poison 998) h none (fun _ _ => poison 999)
+      -- a header-only packet: miekg's `Msg.unpack` stops at the end of the packet and returns just
+      -- the header whatever the counts say, so an accepted one is a message without question
+      let u : Query := { id := h.id, opcode := h.opcode, rd := h.rd, questions := [] }
+      let o := listener cfg (fun _ => poison 998) h (some u) (fun _ _ => poison 999)
       let model := s!"z={renderOutcome h.id [] o}&next=ok"
       let z := (kv out "z").getD "?"
       let failure := z.startsWith "rc=1," ∨ z.startsWith "rc=2," ∨ z.startsWith "rc=4,"
